@@ -68,8 +68,18 @@ def _run_child_inner(pid, scn, seed, outpath, replay_overrides=None, replay_only
             res["status"] = "error"
             res["reason"] = "HarnessError: %s" % e
         except Exception as e:
-            res = S.result()
             tb = traceback.format_exc()
+            frames = traceback.extract_tb(e.__traceback__)
+            inner = frames[-1].filename if frames else ""
+            in_library = inner.startswith(os.path.join(REPO, "gpytorch")) or "/linear_operator/" in inner
+            if in_library and not S.violations:
+                # the library itself raised (innermost frame in gpytorch / linear_operator, not in an engine handler or the harness) on an
+                # input that is valid by construction (the same scenario runs to completion on the tree the checks were built on):
+                # "returns X" cannot hold if the call raises. The exception IS the concrete behaviour of the real code at the witness.
+                S._record("library call raises", "concrete", "sat", detail=repr(e)[:200])
+                S.violations.append({"label": "the library raised %s on a valid input" % type(e).__name__, "kind": "exception",
+                                     "detail": "%r at %s:%d" % (e, inner, frames[-1].lineno)})
+            res = S.result()
             if not S.violations:
                 res["status"] = "error"
             res["reason"] = "%s: %s" % (type(e).__name__, e)
